@@ -1000,6 +1000,22 @@ pub fn exec_op(w: &W, lp: Option<&mut Option<EventLoop<'static, ()>>>, op: &Valu
             ret["us"] = json!(w.borrow().now_us());
             done!("ok")
         }
+        "insert_idle_many" => {
+            // d idles at once (ids m+1 ..= m+d): more than any per-dispatch limit of the real code
+            let m0 = op["m"].as_u64().unwrap_or(0) as u32;
+            let n = op["d"].as_u64().unwrap_or(0) as u32;
+            let Some(h) = handle else { done!("noloop") };
+            for i in (m0 + 1)..=(m0 + n) {
+                let w2 = w.clone();
+                let g = IdleGuard(i);
+                let idle = h.insert_idle(move |_| {
+                    let _g = &g;
+                    run_idle(&w2, i);
+                });
+                w.borrow_mut().idles.insert(i, Some(idle));
+            }
+            done!("ok")
+        }
         "insert_idle" => {
             let i = op["i"].as_u64().unwrap() as u32;
             let Some(h) = handle else { done!("noloop") };
